@@ -72,18 +72,20 @@ Search(k, ts) == IF Cands(mem, k, ts) # {} THEN Newest(Cands(mem, k, ts))
                       IF i # None THEN i ELSE TabSearch(k, ts)
 
 \* ------------------------------------------------------------------ committer
-CmApply ==
-    /\ cm.pc = "idle" /\ nextTs <= MaxCommits
-    /\ \E ks \in (SUBSET Keys) \ {{}} : \E dels \in SUBSET ks :
-         LET batch == {[k |-> k, ts |-> nextTs, tomb |-> (k \in dels)] : k \in ks} IN
-         /\ mem' = mem \cup batch /\ hist' = hist \cup batch
+ApplyB(batch) ==       \* memtable.set of one commit batch (all versions carry ts = nextTs)
+    /\ cm.pc = "idle"
+    /\ mem' = mem \cup batch /\ hist' = hist \cup batch
     /\ nextTs' = nextTs + 1
     /\ cm' = [cm EXCEPT !.pc = "applied"]
     /\ UNCHANGED <<lastDone, imm, q, l0, l1, fl, readers, wm, nimm, lost>>
+CmApply ==
+    /\ nextTs <= MaxCommits
+    /\ \E ks \in (SUBSET Keys) \ {{}} : \E dels \in SUBSET ks :
+         ApplyB({[k |-> k, ts |-> nextTs, tomb |-> (k \in dels)] : k \in ks})
 
 Size == Cardinality({v.ts : v \in mem})      \* memtable size in commits
-CmRotate ==
-    /\ cm.pc = "applied" /\ Size >= MemThreshold
+RotateStep ==
+    /\ cm.pc = "applied"
     /\ IF BugEnqueueBeforePush
        THEN /\ (Len(q) < QueueLen \/ (QueueLen = 0 /\ fl.pc = "wait" /\ q = <<>>))
             /\ q' = Append(q, nimm + 1) /\ cm' = [pc |-> "push", id |-> nimm + 1]
@@ -92,6 +94,7 @@ CmRotate ==
             /\ cm' = [pc |-> "enq", id |-> nimm + 1] /\ UNCHANGED q
     /\ nimm' = nimm + 1
     /\ UNCHANGED <<nextTs, lastDone, hist, l0, l1, fl, readers, wm, lost>>
+CmRotate == Size >= MemThreshold /\ RotateStep
 CmPushLate ==      \* only with BugEnqueueBeforePush
     /\ cm.pc = "push"
     /\ imm' = Append(imm, [id |-> cm.id, vers |-> mem]) /\ mem' = {}
@@ -102,10 +105,11 @@ CmEnqueue ==
     /\ Len(q) < QueueLen \/ (QueueLen = 0 /\ fl.pc = "wait" /\ q = <<>>)
     /\ q' = Append(q, cm.id) /\ cm' = [cm EXCEPT !.pc = "done"]
     /\ UNCHANGED <<nextTs, lastDone, hist, mem, imm, l0, l1, fl, readers, wm, nimm, lost>>
-CmDone ==
-    /\ cm.pc = "done" \/ (cm.pc = "applied" /\ Size < MemThreshold)
+DoneStep ==
+    /\ cm.pc \in {"done", "applied"}
     /\ lastDone' = nextTs - 1 /\ cm' = [pc |-> "idle", id |-> 0]
     /\ UNCHANGED <<nextTs, hist, mem, imm, q, l0, l1, fl, readers, wm, nimm, lost>>
+CmDone == (cm.pc = "done" \/ (cm.pc = "applied" /\ Size < MemThreshold)) /\ DoneStep
 
 \* ------------------------------------------------------------------ flusher
 ImmById(id) == CHOOSE i \in DOMAIN imm : imm[i].id = id
@@ -122,17 +126,19 @@ FlFlush ==
     /\ UNCHANGED <<nextTs, lastDone, hist, mem, imm, q, l1, cm, readers, wm, nimm, lost>>
 \* discardStaleEntries with the mark the oracle reports at that moment
 Mark == IF BugDiscardAtNextTs THEN nextTs - 1 ELSE wm
-Discard(S) == IF Mark = 0 THEN S
-              ELSE {v \in S : v.ts > Mark \/ \A u \in S : (u.k = v.k /\ u.ts <= Mark) => u.ts <= v.ts}
+DiscardAt(S, mk) == IF mk = 0 THEN S
+                    ELSE {v \in S : v.ts > mk \/ \A u \in S : (u.k = v.k /\ u.ts <= mk) => u.ts <= v.ts}
+Discard(S) == DiscardAt(S, Mark)
 Merge(S) == IF BugDropTombstones THEN {v \in S : ~v.tomb} ELSE S
-FlCompact ==
+CompactStep(doit, mk) ==
     /\ fl.pc = "compact"
-    /\ IF Cardinality(l0) > L0Target
-       THEN LET out == Discard(Merge(UNION (l0 \cup l1))) IN
+    /\ IF doit
+       THEN LET out == DiscardAt(Merge(UNION (l0 \cup l1)), mk) IN
             /\ l0' = {} /\ l1' = IF out = {} THEN {} ELSE {out}
        ELSE UNCHANGED <<l0, l1>>
     /\ fl' = [fl EXCEPT !.pc = "remove"]
     /\ UNCHANGED <<nextTs, lastDone, hist, mem, imm, q, cm, readers, wm, nimm, lost>>
+FlCompact == CompactStep(Cardinality(l0) > L0Target, Mark)
 FlRemove ==
     /\ fl.pc = "remove"
     /\ IF imm = <<>> THEN lost' = TRUE /\ UNCHANGED imm
